@@ -289,6 +289,9 @@ func (g *Gen) Next(m *Model) Op {
 		op.Max = opts[r.Intn(len(opts))]
 	case OpIterate:
 		op.Which = r.Intn(5)
+		if c.WithTime() && r.Chance(1, 4) {
+			op.Dur = g.advance(m) // the iterator value is created, the clock moves, then it is ranged over
+		}
 	case OpRunTasks:
 		op.Dur = int64(1 + r.Intn(4))
 		if r.Chance(1, 4) {
